@@ -919,6 +919,37 @@ def render_world(ogp, top_q, out_tmpl, model, opts, rep_, embed=True):
     return str(text), ev
 
 
+def static_expand(ogp, t):
+    """text of template `t` in which the holes / repetitions whose value does not depend on the input (constant templates of helper functions,
+    repetitions over constant lists, identifiers built from literals) are expanded; input-dependent ones stay as `#name` / `#( .. )*` exactly as in
+    engine_ogp.tmpl_text.  Lets the fixed parts of the output be judged as text wherever the source chose to build them."""
+    import engine_ogp as E
+    ev = SkelEval(ogp, None, {}, '', None)
+    ev.markers = False
+
+    def items(its):
+        out = []
+        for it in its:
+            if it[0] == 'tok':
+                out.append(it[1])
+            elif it[0] == 'hole':
+                try:
+                    v = ev.ev(it[2])
+                    out.append(ev.tokens(v))
+                except Exception:
+                    if it[2][0] == 'tmpl':
+                        out.append(items(it[2][2]))
+                    else:
+                        out.append('#' + it[1])
+            else:
+                try:
+                    out.append(ev.render_rep(it))
+                except Exception:
+                    out.append('#( ' + items(it[1]) + ' )' + it[2] + '*')
+        return ' '.join(x for x in out if x)
+    return ' '.join(items(t[2]).split())
+
+
 def find_output_template(ogp):
     for q, v in ogp.summaries.items():
         for t in E.find_templates(v, lambda t: t[3] == q and sum(1 for it in t[2] if it[0] in ('hole', 'rep')) >= 10 and all(it[0] != 'tok' for it in t[2])):
